@@ -428,7 +428,8 @@ class SmtUnit:
                 rep.inconclusive.append("%s/%s [%s]: solver unknown within %d ms" % (self.name, e.name, o["label"], e.timeout_ms))
                 print("INCONCLUSIVE %s/%s [%s]" % (self.name, e.name, o["label"]))
             if e.witness:
-                bad = [x for x in r["reach"] if x["status"] != "reachable"]
+                okl = set(x["label"] for x in r["reach"] if x["status"] == "reachable")
+                bad = sorted(set(x["label"] for x in r["reach"] if x["label"] not in okl))
                 if not r["reach"] and not r["inconclusive"]:
                     rep.errors.append("%s/%s has no vp_reach witness" % (self.name, e.name))
                 if bad:
